@@ -24,11 +24,12 @@ const (
 )
 
 type xval struct {
-	k xkind
-	i int64
-	f float64
-	s string
-	b bool
+	k   xkind
+	i   int64
+	f   float64
+	s   string
+	b   bool
+	raw bool // string literal spelt with back quotes
 }
 
 func (v xval) num() float64 {
@@ -132,6 +133,9 @@ func litSrc(v xval) string {
 		}
 		return s
 	case xStr:
+		if v.raw && !strings.ContainsAny(v.s, "`\n") {
+			return "`" + v.s + "`"
+		}
 		return strconv.Quote(v.s)
 	}
 	return fmt.Sprint(v.b)
@@ -464,7 +468,7 @@ func (g *xgen) lit(k xkind) *xnode {
 	case xFloat:
 		return &xnode{op: "lit", val: xval{k: xFloat, f: []float64{0.5, 1.5, -2.5, 2.25, 0.25, -0.75, 3.5}[g.r.Intn(7)]}}
 	case xStr:
-		return &xnode{op: "lit", val: xval{k: xStr, s: []string{"a", "", "b c", "k"}[g.r.Intn(4)]}}
+		return &xnode{op: "lit", val: xval{k: xStr, s: []string{"a", "", "b c", "k"}[g.r.Intn(4)], raw: g.r.Intn(3) == 0}}
 	}
 	return &xnode{op: "lit", val: xval{k: xBool, b: g.r.Intn(2) == 0}}
 }
